@@ -48,6 +48,10 @@ type CondAPI struct {
 	rv   int64
 	// Calls counts API calls by verb (evidence).
 	Calls map[string]int
+	// Fault, when set, decides the outcome of calls of clients that do not park
+	// at sim points (a driver-owned link state: "this node's API is down");
+	// consulted once per call, before it is applied.
+	Fault func(node, verb, name string) int
 }
 
 func NewCondAPI(sc *sim.Sched) *CondAPI {
@@ -107,6 +111,9 @@ func (c *CondClient) point(phase, verb, name string) int {
 	c.api.Calls[verb+":"+phase]++
 	c.api.mu.Unlock()
 	if !c.Parked {
+		if phase == "pre" && c.api.Fault != nil {
+			return c.api.Fault(c.Node, verb, name)
+		}
 		return Proceed
 	}
 	out := c.api.Sc.ParkPoint("api-"+phase, c.Node, fmt.Sprintf("api:%s:%s:%s:%s", c.Node, verb, name, phase), nil)
